@@ -240,7 +240,7 @@ SCAN_FINAL = '''proof {
 def unit(root='/repo'):
     notes = []
     from vx import extract as X
-    has_lf = 'pub lower_exists: AtomicBool' in X.Source(root, OVL).src      # the tree has the `lower_exists` record (findings O1-O7 repaired)
+    has_lf = C.has_lower_flag(root)      # the tree has the `lower_exists` record (findings O1-O7 repaired); robust probe, see ovl_common
     items = C.common_items(root, notes)
     items.append(Raw(C.COLL))
     items.append(Group('pub trait Layer: FileSystem {', [Raw('    fn root_inode(&self) -> u64;')] + C.layer_trait(root, external=True)))
